@@ -274,3 +274,39 @@ PROPS["C14"] = {
         lane("TestDeterminism", "determinism", 150, 800, shards=16, must_classes=["enum-option-info", "multi-package", "multi-file-package"]),
     ],
 }
+
+PROPS["C13"] = {
+    "pkg": "c13",
+    "level": "exploration",
+    "technique": "property-based generation of edit histories (rapid): metamorphic oracle - every element of compile(P_k) must reappear unchanged in compile(P_k+1)",
+    "level_text": ("A generated bundle is edited 1-5 times, each edit appending one field to an object / nested or inline object / oneof / request / response / topic "
+                   "message, one option to a top-level or inline enum, or one declaration to the end of a file. After each edit every message, field (name, number, "
+                   "type, cardinality, optional, required, JSON name, oneof), enum value, service and method line of the previous compile must be present unchanged "
+                   "in the new compile. The whole history is the replay unit and shrinks as one value."),
+    "level_note": "Sampled; the comparison uses the same contract lines as C02 (read from the real descriptors on both sides, no expected model).",
+    "rule": ("append: j5sgen.Draw (<=2 packages x <=2 files) + 1-5 append edits. Non-trivial: some edit hits a declaration that has inline/nested types or is not the "
+             "last of its file. Distinct by hash(final sources, edit kinds)."),
+    "assumptions": [],
+    "lanes": [
+        lane("TestAppend", "append", 150, 800, shards=16, must_classes=["not-last-in-file", "edit:option-to-enum", "edit:field-to-object", "edit:declaration-to-file"]),
+    ],
+}
+
+PROPS["C05"] = {
+    "pkg": "c05",
+    "level": "exploration",
+    "technique": "property-based testing (rapid) + exhaustive pass over the repository's own proto files; round-trip oracle print -> protocompile -> descriptor equivalence -> print again",
+    "level_text": ("Every file compiled from generated j5s bundles (descriptions, every rule and annotation, odd names such as userID / line2, enum option info, "
+                   "services, topics) and every .proto file under the repository's proto/ tree is printed with protoprint, re-parsed and linked with "
+                   "bufbuild/protocompile using the same import resolution, and compared with the original descriptor: package, import set, message tree, every field "
+                   "(name, number, type, type name, label, proto3-optional, JSON name, oneof membership), enums and values, services and methods, every option and "
+                   "extension value (both sides re-read through one resolver, proto.Equal), leading comments per descriptor. Printing the re-parsed file must give the same text."),
+    "level_note": "Field / declaration order inside a message is not compared (not part of the statement). The repo lane is exhaustive over a finite set; the generated lane is sampled.",
+    "rule": ("generated: j5sgen.Draw with odd names; repo: all proto/*/**.proto. Non-trivial: the bundle has descriptions, an option needing a nested message or map, "
+             "an inline (nested) type or string rules; every repo file. Distinct by hash of the sources / (root, file)."),
+    "assumptions": [],
+    "lanes": [
+        lane("TestRepo", "repo", 0, 0, norapid=True),
+        lane("TestGenerated", "generated", 200, 1200, shards=16, must_classes=["description", "enum-option-info", "service", "topic"]),
+    ],
+}
